@@ -1,6 +1,8 @@
 package model
 
 import (
+	"sort"
+
 	"github.com/prometheus/prometheus/model/labels"
 	"github.com/prometheus/prometheus/storage"
 	"github.com/prometheus/prometheus/tsdb/chunkenc"
@@ -70,26 +72,16 @@ func (s *seriesIt) Next() bool {
 }
 
 func (s *seriesIt) Seek(t int64) bool {
-	l := 0
-	u := len(s.samples)
-	idx := int(0)
-	if t <= s.samples[0].TimestampMs {
+	// chunkenc.Iterator contract: advance forward to the first sample with timestamp >= t; no effect when the
+	// current sample already has it; false once the iterator is exhausted.
+	if s.idx >= len(s.samples) {
+		return false
+	}
+	if s.idx < 0 {
 		s.idx = 0
-		return true
 	}
-	for u > l {
-		idx = (u + l) / 2
-		if s.samples[idx].TimestampMs == t {
-			l = idx
-			break
-		}
-		if s.samples[idx].TimestampMs < t {
-			l = idx + 1
-			continue
-		}
-		u = idx
-	}
-	s.idx = idx
+	rest := s.samples[s.idx:]
+	s.idx += sort.Search(len(rest), func(i int) bool { return rest[i].TimestampMs >= t })
 	return s.idx < len(s.samples)
 }
 
